@@ -180,6 +180,19 @@ class NS:
         return self.__dict__.get(k, default)
 
 
+class MissingLocal(OutOfSubset, AttributeError):
+    """A loop contract reads a local variable the function no longer has (renamed / removed by an edit): the contract cannot be
+    evaluated, which is `undecided` - never a checker fault and never a verdict.  (Also an AttributeError, so hasattr() works.)"""
+
+
+class LoopNS(NS):
+    def __getattr__(self, name):
+        if name.startswith("__"):
+            raise AttributeError(name)
+        raise MissingLocal(f"the loop contract refers to the local variable `{name}`, which the function does not have at this loop "
+                           f"(renamed or removed?); the invariant has to be restated over the new names")
+
+
 _BINOPS = {
     ast.Add: operator.add, ast.Sub: operator.sub, ast.Mult: operator.mul, ast.Div: operator.truediv,
     ast.FloorDiv: operator.floordiv, ast.Mod: operator.mod, ast.Pow: operator.pow,
@@ -793,7 +806,11 @@ class Interp:
 
         def ns(k):
             d = dict(self._flat_env(env))
-            return NS(d, k=k, pre=pre, ctx=ctx, interp=self)
+            # name-independent view of the loop state for invariants that should survive a renaming of locals:
+            #   loop_iterable  the evaluated iterable of a `for` loop;  loop_targets  its target names;
+            #   loop_carried   {name: current value} of the names the body assigns and that were ALREADY bound before the loop
+            live = {n: d[n] for n in carried if n in pre.__dict__ and n in d and n not in tnames}
+            return LoopNS(d, k=k, pre=pre, ctx=ctx, interp=self, loop_iterable=iterable, loop_targets=tuple(tnames), loop_carried=live)
 
         # trip count for `for`
         N = None
@@ -899,6 +916,8 @@ class Interp:
         sig = {}
 
         def one(key, v, depth):
+            if key in skip:  # dotted keys ("self._field") can be named in LoopSpec.havoc as well
+                return
             if isinstance(v, SymArr):
                 sig[key] = ("arr", id(v), v.writes, id(v.fn))
             elif isinstance(v, Obj) and depth < 2:
@@ -966,6 +985,11 @@ class Interp:
                     new = ctx.fresh_arr(n, old.shape, old.kind if old.kind in ("int", "real", "bool") else "real")
                     new.pylist = old.pylist
                     env.assign(n, new)
+                    continue
+                elif type(old) in getattr(self.reg, "havoc_models", {}):
+                    # reg.havoc_models[type] = handler(ctx, name, old) -> arbitrary value of that type (name-independent havoc of a
+                    # library model's value class; C10: abstract images)
+                    env.assign(n, self.reg.havoc_models[type(old)](ctx, n, old))
                     continue
                 else:
                     raise OutOfSubset(f"{lid}: cannot havoc loop-carried variable {n} of type {type(old).__name__}")
@@ -1357,6 +1381,22 @@ class Interp:
             self.yields.append(("one", v))
         return None
 
+    def e_YieldFrom(self, node, env):
+        """`yield from it` outside a symbolic loop: every value of `it` is yielded in order (the sent-value / return-value
+        protocol of sub-generators is not modelled: the expression evaluates to None, which is what a plain iterable gives)."""
+        it = self.eval(node.value, env)
+        if self.loop_k:
+            raise OutOfSubset("yield from inside a loop verified by invariant")
+        if isinstance(it, GhostGen):
+            self.yields.extend(it.items)
+            return None
+        vals = self.iter_values(it)
+        if vals is None:
+            raise OutOfSubset("yield from a symbolic-length iterable")
+        for v in vals:
+            self.yields.append(("one", v))
+        return None
+
     def e_Await(self, node, env):
         raise OutOfSubset("await")
 
@@ -1392,6 +1432,12 @@ class Interp:
                     real_t = _np.ndarray
                 if hasattr(real_t, name):
                     raise OutOfSubset(f"attribute {name} of a symbolic {real_t.__name__} is not modelled")
+            elif getattr(base, "_pyvc_value", False) and not name.startswith("__"):
+                # an engine stand-in (a property module's array / tensor / generator class): when the REAL type it stands for has
+                # the attribute, the lookup failure is a modelling gap (undecided), not an AttributeError of the program
+                real_t = getattr(base, "as_type", None)
+                if real_t is not None and hasattr(real_t, name):
+                    raise OutOfSubset(f"attribute {name} of {type(base).__name__} (stand-in for {getattr(real_t, '__name__', real_t)}) is not modelled")
             raise RaiseSig(e)
         return r
 
@@ -1654,7 +1700,7 @@ class Interp:
             # accessor must not make the contract undecidable
             self.ctx.ghost.setdefault("inlined", set()).add(qn)
             return self.call_closure(self.closure_of(f), args, kwargs)
-        if self.ctx.ghost.get("auto_inline_depth", 0) < 3:
+        if self.ctx.ghost.get("auto_inline_depth", 0) < 6:
             # no contract and no permission: interpret the callee's real body in place (always sound; depth-limited so that an
             # unexpected recursion ends as `undecided`).  Keeps "extract a helper function" refactorings decidable.
             g = self.ctx.ghost
@@ -1684,6 +1730,8 @@ class Interp:
                 if init is not object.__init__:
                     self.call(init, [obj] + list(args), kwargs)
                 return obj
+        if cls is slice and not kwargs and 1 <= len(args) <= 3:
+            return slice(*args)  # a plain container (eval_index builds the same object for a[lo:hi:step])
         if contains_sym((args, kwargs)):
             m = reg.models.get(cls)
             raise OutOfSubset(f"constructing native {cls.__name__} from symbolic arguments")
